@@ -399,7 +399,6 @@ func runC11(c *Ctx) {
 	c.Rule("R11.10", "E3", "query converters (server ConvertLabelQuery, client transformLabelQuery): what is built for one term depends on that term only — no slice, string or option list carried over from the previous term", 2)
 	perTermRules(c, "R11.10")
 
-
 	// ---------- error discipline (E8)
 	errDisciplineFor(c, "C11")
 }
